@@ -738,6 +738,77 @@ def coalesce_copies(fn, known_locals):
   return fn
 
 
+def forward_attribute_copies(fn, known_locals):
+  """P = E ; self.A = P ; ... P ...   ->   self.A = E ; ... self.A ...
+  for an unknown local P that is assigned once, copied into an attribute of
+  `self` that the function stores nowhere else, in the same block, with no
+  statement between definition and copy that mentions P or self.A."""
+  params = {a.arg for a in ast.walk(fn.args) if isinstance(a, ast.arg)}
+  if not fn.args.args or fn.args.args[0].arg != 'self':
+    return fn
+  nested = {id(n) for d in ast.walk(fn) if d is not fn and isinstance(
+      d, (ast.FunctionDef, ast.Lambda)) for n in ast.walk(d)}
+  for owner in ast.walk(fn):
+    for f in ('body', 'orelse', 'finalbody'):
+      block = getattr(owner, f, None)
+      if not (isinstance(block, list) and block and isinstance(
+          block[0], ast.stmt)):
+        continue
+      for i, st in enumerate(list(block)):
+        if not (isinstance(st, ast.Assign) and len(st.targets) == 1 and
+                isinstance(st.targets[0], ast.Name)):
+          continue
+        p_ = st.targets[0].id
+        if p_ in known_locals or p_ in params:
+          continue
+        stores = [n for n in ast.walk(fn) if isinstance(n, ast.Name) and
+                  n.id == p_ and isinstance(n.ctx, (ast.Store, ast.Del))]
+        if len(stores) != 1 or any(
+            isinstance(n, ast.Name) and n.id == p_ and id(n) in nested
+            for n in ast.walk(fn)):
+          continue
+        if st not in block:
+          continue
+        i = block.index(st)
+        for j in range(i + 1, len(block)):
+          c = block[j]
+          if isinstance(c, ast.Assign) and len(c.targets) == 1 and \
+              isinstance(c.targets[0], ast.Attribute) and isinstance(
+                  c.targets[0].value, ast.Name) and \
+              c.targets[0].value.id == 'self' and isinstance(
+                  c.value, ast.Name) and c.value.id == p_:
+            attr = c.targets[0].attr
+            other = [n for n in ast.walk(fn) if isinstance(n, ast.Attribute)
+                     and n.attr == attr and isinstance(n.value, ast.Name) and
+                     n.value.id == 'self' and n is not c.targets[0] and (
+                         isinstance(n.ctx, (ast.Store, ast.Del)) or
+                         n.lineno < c.lineno)]
+            if other:
+              break
+            c.value = st.value
+            for owner2 in ast.walk(fn):
+              for f2, v2 in ast.iter_fields(owner2):
+                if isinstance(v2, ast.Name) and v2.id == p_ and isinstance(
+                    v2.ctx, ast.Load):
+                  setattr(owner2, f2, ast.copy_location(ast.Attribute(
+                      value=ast.Name(id='self', ctx=ast.Load()), attr=attr,
+                      ctx=ast.Load()), v2))
+                elif isinstance(v2, list):
+                  for k, x in enumerate(v2):
+                    if isinstance(x, ast.Name) and x.id == p_ and isinstance(
+                        x.ctx, ast.Load):
+                      v2[k] = ast.copy_location(ast.Attribute(
+                          value=ast.Name(id='self', ctx=ast.Load()),
+                          attr=attr, ctx=ast.Load()), x)
+            block.remove(st)
+            ast.fix_missing_locations(fn)
+            break
+          if any(isinstance(n, ast.Name) and n.id == p_
+                 for n in ast.walk(c)):
+            break
+  return fn
+
+
 def expand_kwargs_dicts(fn, known_locals):
   """shared = dict(a=x, b=y) / {'a': x, 'b': y};  f(**shared, c=z)  ->
   f(a=x, b=y, c=z)   for an unknown local that is assigned once, never
@@ -1222,6 +1293,7 @@ def normalise_module(modname, tree):
         split_tuple_assignments(fn)
         expand_kwargs_dicts(fn, known)
         coalesce_copies(fn, known)
+        forward_attribute_copies(fn, known)
         split_versions(fn, known)
         substitute_new_locals(fn, known)
   ast.fix_missing_locations(tree)
